@@ -43,6 +43,24 @@ Theorem dispatch_tied :
   /\ map bytes_of_string lookupd_magics = [magic_v1].
 Proof. split; reflexivity. Qed.
 
+(* tcp.go Handle has the shape the model transcribes; in particular the clause for every
+   other magic answers E_BAD_PROTOCOL, closes and ends the function before prot (nil there)
+   is used, and so does the short-read branch *)
+Theorem handle_tied : handle_shape = lookupd_Handle_shape.
+Proof. reflexivity. Qed.
+
+Theorem magic_refusal_returns : exists pre post,
+  lookupd_Handle_shape =
+    (pre ++ ["default:"; "call protocol.SendResponse E_BAD_PROTOCOL"; "call Close"; "return"; "}"]%string ++ post)%list
+  /\ ~ In "call NewClient"%string pre /\ hd_error post = Some "call NewClient"%string
+  /\ exists pre', pre = (["call make"; "call io.ReadFull"; "if err != nil {"; "call Close"; "return"; "}"]%string ++ pre')%list.
+Proof.
+  exists ["call make"; "call io.ReadFull"; "if err != nil {"; "call Close"; "return"; "}"; "call string";
+          "switch protocolMagic {"; "case ""  V1"":"; "set prot"]%string.
+  eexists. split; [reflexivity|]. split; [|split; [reflexivity|eexists; reflexivity]].
+  cbn. intros H. repeat (destruct H as [H|H]; [discriminate|]). exact H.
+Qed.
+
 (* the size guard of the model is the one the IDENTIFY handler has, placed before make *)
 Theorem identify_guard_tied :
   exists pre post, lookupd_IDENTIFY_summary =
